@@ -88,7 +88,42 @@ def call_specs(world):
         "inittoken-reinit": dict(login="none-closed", line=lambda p, s: "C_InitToken slot=%d pin=x%s label=x%s" % (world["slots"]["A"], W.SO_A.hex(), b"A".ljust(32).hex()), reinit=True),
         "inittoken-free-slot": dict(login="none-closed", line=lambda p, s: "C_InitToken slot=%d pin=x%s label=x%s" % (world["slots"]["free"], b"so-pin-C-0003".hex(), b"C".ljust(32).hex()), newtoken=True),
     }
+    # torn multi-write ladder: a data object a little larger than one stdio buffer is written with two write() calls; the value length sweeps so that
+    # the end of the first write falls on EVERY byte offset of the records that follow the value (object id, modifiable, copyable, destroyable).
+    # A crash between the two writes leaves a file cut at that offset.
+    for v in LADDER:
+        specs["create-ladder-%d" % v] = dict(login="user", signame="create-data-over-one-stdio-buffer", ladder=True, created=[b"ladder"],
+                                             line=(lambda v_: lambda p, s: "C_CreateObject s=%d tpl=%s" % (s, tpl([(C.CKA_CLASS, C.CKO_DATA), (C.CKA_TOKEN, True), (C.CKA_PRIVATE, False), (C.CKA_LABEL, b"ladder"),
+                                                   (C.CKA_VALUE, BIG[:v_]), (C.CKA_MODIFIABLE, False), (C.CKA_COPYABLE, False), (C.CKA_DESTROYABLE, False)])))(v))
     return specs
+
+
+# file layout of that object: 8 (generation) + class 24 + token 17 + private 17 + label 24+6 + application 24 + value header 24 = 144 bytes before the value bytes,
+# then object id 24 + modifiable 17 + copyable 17 + destroyable 17 = 75 bytes after them
+LADDER_PRE, LADDER_POST, STDIO_BUF = 144, 75, 4096
+LADDER_ALL = list(range(STDIO_BUF - LADDER_PRE - LADDER_POST - 2, STDIO_BUF - LADDER_PRE + 3))
+LADDER = list(LADDER_ALL)
+
+
+def cut_class(size, vlen):
+    """where a file of `size` bytes ends relative to the record structure of the ladder object with a value of vlen bytes"""
+    full = LADDER_PRE + vlen + LADDER_POST
+    if size >= full:
+        return "complete"
+    bounds = [8, 32, 49, 66, 96, 120]                     # record starts before the value record
+    vstart = 120
+    after = LADDER_PRE + vlen
+    bounds += [vstart, after, after + 24, after + 41, after + 58, after + 75]
+    if size in bounds:
+        return "file-ends-at-a-record-boundary"
+    if size == 0:
+        return "file-empty"
+    if LADDER_PRE <= size < after:
+        return "file-ends-inside-the-value-bytes"
+    # inside a record: header = first 16 bytes of the record
+    starts = [b for b in bounds if b <= size]
+    off = size - max(starts)
+    return "file-ends-inside-a-record-type-field" if off < 8 else ("file-ends-inside-a-record-kind-field" if off < 16 else "file-ends-inside-a-record-value")
 
 
 def observe(variant, statedir, world, pins):
@@ -189,6 +224,8 @@ def _task(task):
         out["viol"].setdefault(sig, {"signature": sig, "detail": det, "task": list(task), "history": [], "action": None})
     try:
         spec = call_specs(world)[cname]
+        sn = spec.get("signame", cname)
+        template_files = {f for dp, dn, fn in os.walk(core._W["template"]["dir"]) for f in fn}
         pins = {"A": {"so": [("old", W.SO_A)], "user": [("old", W.USER_A)]}, "B": {"so": [("old", W.SO_B)], "user": [("old", W.USER_B)]}, "C": {"so": [("old", b"so-pin-C-0003")], "user": []}}
         if spec.get("pin"):
             pins["A"][spec["pin"][0]].append(("new", spec["pin"][1]))
@@ -241,8 +278,15 @@ def _task(task):
             pclass = classify_point(pt["before"], None)
             if pt["before"] == "window-end":
                 new = ob
-            base = "C16|%s|crash-%s" % (cname, pclass)
+            base = "C16|%s|crash-%s" % (sn, pclass)
             det = {"point": k, "of": len(points), "before": pt["before"], "call_rv": call_rv}
+            if spec.get("ladder"):
+                vlen = int(cname.rsplit("-", 1)[1])
+                newf = [os.path.join(dp, f) for dp, dn, fn in os.walk(sdir) for f in fn if f.endswith(".object") and f not in template_files]
+                sizes = sorted(os.path.getsize(f) for f in newf)
+                det["cut"] = cut_class(sizes[-1], vlen) if sizes else "no-object-file-yet"
+                det["file_size"] = sizes[-1] if sizes else None
+                ctx.count("ladder_state:" + det["cut"])
             if ob["died"]:
                 V(base + "|recovering-process-died", dict(det, died=ob["died"]))
                 continue
@@ -305,7 +349,7 @@ def _task(task):
             nobj = {k2: v for k2, v in new["tokens"]["A"]["objects"].items() if k2 != b"post-crash"}
             oobj = old["tokens"]["A"]["objects"]
             for k, pclass, objs, det in out.get("pending", []):
-                base = "C16|%s|crash-%s" % (cname, pclass)
+                base = "C16|%s|crash-%s" % (sn, pclass)
                 for lab in set(spec.get("written", [])) | set(spec.get("created", [])):
                     cur, o_, n_ = objs.get(lab), oobj.get(lab), nobj.get(lab)
                     if cur is None:
@@ -319,7 +363,8 @@ def _task(task):
                         ctx.count("target_new")
                     else:
                         na, nn = len(cur), len(n_ or o_ or ())
-                        V(base + "|object-returned-in-mixed-state|%s|%s" % (lab.decode(), "attributes-missing" if na < nn else "attributes-differ"), dict(det, attributes_present=na, attributes_complete=nn))
+                        V(base + "|object-returned-in-mixed-state|%s|%s%s" % (lab.decode(), "attributes-missing" if na < nn else "attributes-differ", ("|" + det["cut"]) if spec.get("ladder") else ""),
+                          dict(det, attributes_present=na, attributes_complete=nn))
                 for lab in objs:
                     if lab not in oobj and lab not in nobj:
                         V(base + "|unknown-object-visible|%s" % ("without-label" if lab.startswith(b"<no-label") else "other"), dict(det, label=lab, attributes=len(objs[lab])))
@@ -342,6 +387,9 @@ def main(tier):
     cnt, samples = {}, []
     try:
         names = sorted(call_specs(ex.template["world"]))
+        if quick:
+            keep = {"create-ladder-%d" % v for v in LADDER_ALL[2:22]}        # 20 consecutive lengths: every offset of the last record and its header
+            names = [n for n in names if not n.startswith("create-ladder-") or n in keep]
         found = {}
         for r in ex.pool.imap_unordered(_task, [(n,) for n in names]):
             if r["harness"]:
@@ -366,7 +414,7 @@ def main(tier):
                     rep.harness_errors.append("violation %s did not reproduce" % sig)
     finally:
         ex.close()
-    if cnt.get("distinct_crash_states", 0) < 20:
+    if cnt.get("distinct_crash_states", 0) < 20 or not cnt.get("ladder_state:file-ends-inside-a-record-kind-field"):
         rep.harness_errors.append("vacuous: %r" % cnt)
     rep.coverage = {"evaluations": cnt.get("crash_points", 0), "distinct_nontrivial": cnt.get("distinct_crash_states", 0), "samples": samples[:20], "exhaustive": True, "variant": variant,
                     "outcome_counters": cnt, "calls": len(samples),
